@@ -163,17 +163,18 @@ type pInput struct {
 	q    chan wcmd
 	next int // next sequence number to enqueue (owned by the stepper)
 
-	enq      int          // items enqueued (stepper)
-	wsCount  atomic.Int64 // writes started
-	wcCount  atomic.Int64 // writes completed
-	closedAt atomic.Int64 // 1 once the channel was closed by the writer
-	closeEnq bool
-	recv     int          // items of this channel received (stepper)
-	seen     map[int]bool // simple disciplines: sequence numbers seen
-	removed  bool
-	takenAt  int64 // items taken out by the discipline when the removal returned (-1: not removed)
-	stampsMu sync.Mutex
-	ws, wc   []int64 // per item stamps (ns since scenario start), used by the real-time runs
+	enq         int          // items enqueued (stepper)
+	wsCount     atomic.Int64 // writes started
+	wcCount     atomic.Int64 // writes completed
+	closedAt    atomic.Int64 // 1 once the channel was closed by the writer
+	closeEnq    bool
+	recv        int          // items of this channel received (stepper)
+	seen        map[int]bool // simple disciplines: sequence numbers seen
+	removed     bool
+	removedByRm bool  // removed by RemoveInput (as opposed to replaced by AddInput)
+	takenAt     int64 // items taken out by the discipline when the removal returned (-1: not removed)
+	stampsMu    sync.Mutex
+	ws, wc      []int64 // per item stamps (ns since scenario start), used by the real-time runs
 
 	// parked writers (saturation of inputs with a small buffer): `multi` goroutines each keep
 	// sending; whenever the bubble is quiescent all of them are parked in a send, so the next
